@@ -245,7 +245,7 @@ func main() {
 			"a path is closed when its first and last entries are the same point feature; equal literal coordinates make a path a closed loop only where an area uses it as boundary",
 			"polygons given by explicit loops are not part of the statement and are not validated",
 		},
-		QuickDeadline: 240e9, ThoroughDeadline: 1500e9, CaseTimeout: 900e9, Chunk: 8,
+		QuickDeadline: 240e9, ThoroughDeadline: 1800e9, CaseTimeout: 900e9, Chunk: 8,
 		WorkerEnv: []string{"GOMAXPROCS=2", "GOGC=200"},
 		Build: func(tier string) (kit.Space, string) {
 			combos := hist.Combos(tier)
@@ -255,40 +255,40 @@ func main() {
 			opt := hist.Options{Depth: 2, Validate: true, MergedPairs: 1}
 			if tier == "thorough" {
 				norders = 3
-				opt = hist.Options{Depth: 3, Validate: true, MergedPairs: 3}
+				opt = hist.Options{Depth: 3, Validate: true, MergedPairs: 2}
 			}
 			nA := kit.Product(rad) * int64(norders)
 			nB := int64(len(combos)) * int64(1+len(ops))
 			return kit.FuncSpace{N: nA + nB, F: func(i int64) kit.Result {
-				var r kit.Result
-				if i >= nA {
-					j := i - nA
-					var c hist.Combo
-					first := -1
-					if j < int64(len(combos)) {
-						c = combos[j]
-					} else {
-						j -= int64(len(combos))
-						c = combos[j%int64(len(combos))]
-						first = int(j / int64(len(combos)))
+					var r kit.Result
+					if i >= nA {
+						j := i - nA
+						var c hist.Combo
+						first := -1
+						if j < int64(len(combos)) {
+							c = combos[j]
+						} else {
+							j -= int64(len(combos))
+							c = combos[j%int64(len(combos))]
+							first = int(j / int64(len(combos)))
+						}
+						hist.Explore(c, first, opt, &r)
+						name := "seed"
+						if first >= 0 {
+							name = ops[first].Name
+						}
+						r.Key = "search/" + c.String() + "/" + name
+						if r.Outcome == "" {
+							r.Outcome = "search:" + c.Kind.String()
+						}
+						return r
 					}
-					hist.Explore(c, first, opt, &r)
-					name := "seed"
-					if first >= 0 {
-						name = ops[first].Name
-					}
-					r.Key = "search/" + c.String() + "/" + name
-					if r.Outcome == "" {
-						r.Outcome = "search:" + c.Kind.String()
-					}
+					order := int(i % int64(norders))
+					choice := kit.Digits(i/int64(norders), rad)
+					runBuilds(slots, choice, order, &r)
 					return r
-				}
-				order := int(i % int64(norders))
-				choice := kit.Digits(i/int64(norders), rad)
-				runBuilds(slots, choice, order, &r)
-				return r
-			}}, fmt.Sprintf("part A: %d menu worlds x %d source orders x 5 build modes; part B: %d world kinds x seeds, histories of <= %d accepted ops over %d ops, %d AddFeature + %d MergedChange attempts at every state",
-				kit.Product(rad), norders, len(combos), opt.Depth, len(ops), len(ops), len(hist.MergedMenu(opt.MergedPairs)))
+				}}, fmt.Sprintf("part A: %d menu worlds x %d source orders x 5 build modes; part B: %d world kinds x seeds, histories of <= %d accepted ops over %d ops, %d AddFeature + %d MergedChange attempts at every state",
+					kit.Product(rad), norders, len(combos), opt.Depth, len(ops), len(ops), len(hist.MergedMenu(opt.MergedPairs)))
 		},
 	})
 }
